@@ -99,6 +99,7 @@ func (q *queueCtx) config() paths.Config {
 		Info:   info,
 		Inline: in.Body,
 		Expand: in.Expand,
+		Unroll: in.FixedList,
 		Cond: func(c ast.Expr, v bool) *paths.Event {
 			return &paths.Event{Kind: "COND", Arg: condKey(info, q.norm, c, v), Pos: c.Pos()}
 		},
@@ -567,16 +568,21 @@ func c11Get(r *core.Report, name, pos string, ps []paths.Path) {
 				}
 			}
 			if e.Kind == "REMOVEFIRST" {
-				// must be after the wait loop ended (emptiness false)
-				endl := false
+				// since the last Wait() (or the start) the path must have found this queue non-empty:
+				// `for empty { Wait }; remove` and `for { if non-empty { return remove }; Wait }` alike
+				nonEmpty := false
 				for j := i - 1; j >= 0; j-- {
-					if pa[j].Kind == "ENDLOOP" {
-						endl = true
+					if pa[j].Kind == "WAIT" {
+						break
+					}
+					if pa[j].Kind == "COND" && (pa[j].Arg == cc("size"+e.Arg, ">", "0", true) || pa[j].Arg == cc("size"+e.Arg, "==", "0", false) || pa[j].Arg == cc("size"+e.Arg, ">=", "1", true)) {
+						nonEmpty = true
+						break
 					}
 				}
-				if !endl {
+				if !nonEmpty {
 					ok = false
-					why = append(why, "removes before the emptiness loop has ended")
+					why = append(why, "removes without having found the queue non-empty since the last Wait(): a woken consumer takes from an empty queue")
 				}
 			}
 		}
@@ -766,6 +772,13 @@ func (q *queueCtx) resolveRetvals(ps []paths.Path) {
 			}
 			if b, ok := eval(ex); ok {
 				e.Arg = fmt.Sprint(b)
+			}
+		}
+		// `return v` with v known to be nil on this path (v, _ := take() took the empty way out)
+		for i := range pa {
+			e := &pa[i]
+			if e.Kind == "RETVAL" && e.Arg != "" && pa[:i].HasArg("FLAG", e.Arg+"==nil=true") {
+				e.Arg = "nil"
 			}
 		}
 	}
